@@ -8,6 +8,7 @@
  * contract to one function name, and some functions need a different pre-state family per
  * group (freshly initialised table vs. table in use).
  */
+#define VF_KEEP_UNIT 16
 #include "vf.h"
 #include <stdlib.h>
 #include "cstl/hash.h"
@@ -280,6 +281,11 @@ REQUIRES(H_FLAT(h))
 REQUIRES(vf_w_g < h->bucket.capacity && H_SWEEP(h, vf_w_g) && vf_dirty_cleaned == 0)
 #endif
 REQUIRES(count <= H_CAPMAX)
+#if defined(VF_RESIZE_CASE) && VF_RESIZE_CASE == 1
+REQUIRES(count <= h->bucket.capacity)       /* case split: no reallocation needed */
+#elif defined(VF_RESIZE_CASE) && VF_RESIZE_CASE == 2
+REQUIRES(count > h->bucket.capacity)        /* case split: the bucket array must grow */
+#endif
 ASSIGNS(h->bucket.at, h->bucket.capacity, h->bucket.rh.clean, h->bucket.rh.count, h->bucket.rh.hash,
         h->bucket.count, h->bucket.hash, h->bucket.cst, vf_dirty_cleaned)
 #if !defined(VF_G_resize_init)
